@@ -93,6 +93,32 @@ func inStrategyCase(b *ssa.BasicBlock, strat *ssa.Parameter, c int64) bool {
 
 // nilTest: the branch conditions on block b that compare a value derived from
 // one of the lookup calls with nil; returns "nil", "nonnil" or "".
+// innermostIsPresence: the branch condition nearest to b is the nil-test of a lookup result.
+func innermostIsPresence(b *ssa.BasicBlock, lookups []ssa.CallInstruction) bool {
+	pcs := core.PathConds(b)
+	if len(pcs) == 0 {
+		return false
+	}
+	bo, ok := pcs[0].V.(*ssa.BinOp)
+	if !ok || (bo.Op != token.EQL && bo.Op != token.NEQ) {
+		return false
+	}
+	var v ssa.Value
+	if core.IsNilConst(bo.Y) {
+		v = bo.X
+	} else if core.IsNilConst(bo.X) {
+		v = bo.Y
+	} else {
+		return false
+	}
+	for _, l := range lookups {
+		if lv := l.Value(); lv != nil && dependsOn(v, lv, 0) {
+			return true
+		}
+	}
+	return false
+}
+
 func lookupPresence(b *ssa.BasicBlock, lookups []ssa.CallInstruction) string {
 	for _, pc := range core.PathConds(b) {
 		bo, ok := pc.V.(*ssa.BinOp)
@@ -126,6 +152,7 @@ func lookupPresence(b *ssa.BasicBlock, lookups []ssa.CallInstruction) string {
 }
 
 func C03(ctx *core.Ctx, r *core.Report) {
+	c03Shared(ctx, r)
 	r.Explanation = "Shape of the merge algorithm in node/edit.go, decided on all paths: the strategy dispatch of editor.node and editor.list is total over the declared strategies with a not-implemented default; the conflict error is raised exactly on the insert branch when the lookup found something and the not-found error exactly on the update branch when it found nothing (error identities resolved through fc's variables and %w); the lookup (New=false) precedes every create (New=true); the strategy is handed unchanged to every recursive enter; defaults are materialised from `new`, the strategy and the editor's flag; each API entry point passes its own strategy and orientation. The `new` flag handed to the recursive enter is decided per item (not loop-carried); the reflection list nodes drop their cached index on every path from a container change to a return; the linear key search of slice-backed lists answers found only on the equal side of every key leaf comparison. Not decided: the merge result for any pair of trees, behaviour of node implementations."
 	consts := strategyConsts(ctx, r)
 	conflict := globalVar(ctx, "fc", "ConflictError")
@@ -221,6 +248,15 @@ func C03(ctx *core.Ctx, r *core.Report) {
 			if ef.wraps(conflict) {
 				nConf++
 				ok := inStrategyCase(b, strat, insertC) && lookupPresence(b, lookups[:1]) == "nonnil"
+				// … and whenever it found one: no further condition between the test of the
+				// lookup's result and the error (an exemption for some node kind would let an
+				// insert onto an existing node of that kind through)
+				if ok && !innermostIsPresence(b, lookups[:1]) {
+					r.Ob("failure-identity", spec.fn+"/conflict-unconditional", ctx.Pos(ef.Call.Pos()), false,
+						"in the insert case the conflict error is raised only under a further condition after the lookup found an existing node: for the nodes that condition excludes (lists, say) insert merges into what exists instead of failing")
+				} else if ok {
+					r.Ob("failure-identity", spec.fn+"/conflict-unconditional", ctx.Pos(ef.Call.Pos()), true, "")
+				}
 				r.Ob("failure-identity", spec.fn+"/conflict", ctx.Pos(ef.Call.Pos()), ok,
 					"the conflict error must be raised in the insert case exactly when the lookup found an existing node")
 			}
@@ -482,4 +518,16 @@ func loopCarried(v ssa.Value, seen map[ssa.Value]bool) *ssa.Phi {
 		}
 	}
 	return nil
+}
+
+// c03Shared: clauses of the merge that other properties' rule sets decide on the same code —
+// the XML reader as edit source hands out every entry of a list (C19), and schema defaults
+// are materialised for every leaf kind that can have one (C04).
+func c03Shared(ctx *core.Ctx, r *core.Report) {
+	sub := core.NewReport("C19", r.Tier, r.Root, r.Seed)
+	C19(ctx, sub)
+	r.Borrow(sub, "list-entries-by-match", "list-interleaving")
+	sub4 := core.NewReport("C04", r.Tier, r.Root, r.Seed)
+	c04DefaultSites(ctx, sub4)
+	r.Borrow(sub4, "default-after-hasdefault")
 }
